@@ -178,6 +178,9 @@ def h14d(c, n_updates=2):
         kw["max_inplay_seconds"] = mis
     listener = HistoricListener(max_latency=None, update_clk=False, **kw)
     stream = FlumineMarketStream(listener, 123)
+    # environment: the local time zone of the process running the backtest (any offset from UTC): what is delivered must not depend on it
+    from symx.shims import ClockShim as _CS
+    _CS.local_offset_min = c.int("local_utc_offset_minutes", -720, 840)
     MT = ["2023-11-14T23:00:00.000Z", "2023-11-14T22:30:00.000Z", "2023-11-14T23:45:00.000Z"]
     mt_us = {m: int((REAL_DT.strptime(m, "%Y-%m-%dT%H:%M:%S.%fZ") - core._EPOCH).total_seconds()) * 10**6 for m in MT}
     cur = dict(status="OPEN", inPlay=False, marketTime=MT[0])
@@ -225,7 +228,16 @@ def h14d(c, n_updates=2):
 
 OUT = ["independence from process and PYTHONHASHSEED: needs separate interpreter processes (testing, not solving) - NOT claimed",
        "JSON decoding and betfairlightweight's cache internals - NOT claimed", "more than 3 streams x 3 books"]
+def h14f(c, U=3):
+    """loop level (C07 world): a strategy callback enters SimulatedDateTime.real_time() and raises inside it (the framework contains the
+    error): every later callback still sees the publish time of the update being processed, requests still take effect on the simulated clock"""
+    from .c07 import h07
+    from .c06 import _Only
+    h07(_Only(c, ("strategy-clock=publish-time", "clock-at-execution=processing-update", "executed-at-first-due-update", "no-exception")), U=U, R=1, real_time_error=True)
+
+
 HARNESSES = [
+    Harness("H14f", h14f, quick=dict(U=3), thorough=dict(U=4), pattern="P3 with symbolic time", requires=["run", "executed"], selfcheck=False),
     Harness("H14a", h14a, quick=dict(n_streams=2, lengths=(1, 3)), thorough=dict(n_streams=3, lengths=(1, 2, 3)), pattern="P1 + P4 (wall clock)",
             requires=["run", "event-group"], outside=OUT, max_paths=(400000, 4000000), wall_s=(300, 3000), selfcheck=False),
     Harness("H14e", h14a, quick=dict(n_streams=1, lengths=(3,), grouping=False, cooldown=True), thorough=dict(n_streams=2, lengths=(2, 3), cooldown=True),
